@@ -119,10 +119,9 @@ class Assembler:
 
         if stmt.get("type") == "org":
             if first_pass:
-                try:
-                    new_addr = int(str(stmt["args"]), 0)
-                except ValueError:
-                    new_addr = 0
+                # Symbols defined on earlier lines are already known; a forward
+                # reference would make the layout depend on itself.
+                new_addr = self._evaluate_operand(str(stmt["args"]))
             else:
                 new_addr = self._evaluate_operand(str(stmt["args"]))
                 self.current_address = new_addr
